@@ -192,7 +192,8 @@ theorem parse_stored (env : RegexEnv) (k : SetKind) (es : List Elem) (new obj : 
     (hp : parseElems env k es = some new) (hc : covers k new obj) : es.all (Spec.elemStored k obj) = true := by
   simp only [List.all_eq_true]
   intro e he
-  cases k <;> simp only [parseElems] at hp
+  replace hp := parseElems_some hp
+  cases k <;> simp only [parseElems0] at hp
   · -- prefix
     split at hp
     · rename_i zero zero6 hz hz6
@@ -412,7 +413,8 @@ theorem zero_requested (es : List Elem) (v6 : Bool) (l : List PEntry) (hl : ∀ 
 /-- a set created from a request holds nothing but what was asked for -/
 theorem parse_only (env : RegexEnv) (k : SetKind) (es : List Elem) (new f : SetObj)
     (hp : parseElems env k es = some new) (hf : new.fresh = some f) : Spec.onlyRequested k es f = true := by
-  cases k <;> simp only [parseElems] at hp
+  replace hp := parseElems_some hp
+  cases k <;> simp only [parseElems0] at hp
   · split at hp
     · rename_i zero zero6 hz hz6
       simp at hp; subst hp
@@ -788,15 +790,148 @@ theorem heldCurrent_ok {t : Table} (hi : Inv ar t) : Spec.heldCurrent t.dump = t
 
 /-! ## the run -/
 
-/-- no member of a community set is given by a well-known *name* (the name → value translation
-    of `parse_community` involves string case folding and is tied by correspondence only) -/
-def Op.noWellKnown : Op → Bool
-  | .setAdd .comm _ es => es.all (fun e => match e with | .pat s => (Spec.wellKnownValue s.toLower).isNone | _ => true)
-  | .setReplace .comm _ es => es.all (fun e => match e with | .pat s => (Spec.wellKnownValue s.toLower).isNone | _ => true)
+/-! ### well-known community names (`parse_community`: `to_lowercase` + table look-up) -/
+
+/-- ASCII lowering maps a digit to itself -/
+theorem toLower_digit (c : Char) (h : c.isDigit = true) : c.toLower = c := by
+  simp only [Char.isDigit, Bool.and_eq_true, decide_eq_true_eq] at h
+  unfold Char.toLower
+  have h9 : ¬ (c.val ≥ 'A'.val ∧ c.val ≤ 'Z'.val) := by
+    intro ⟨ha, _⟩
+    have h1 := h.2
+    have : ('9'.val : UInt32) < 'A'.val := by decide
+    exact absurd (UInt32.le_trans ha h1) (by exact UInt32.not_le.mpr this)
+  rw [dif_neg h9]
+
+/-- a string whose lower-cased form has no digit has no digit -/
+theorem noDigit_of_lower (l : List Char) (h : (l.map Char.toLower).all (fun c => !c.isDigit) = true) :
+    l.all (fun c => !c.isDigit) = true := by
+  induction l with
+  | nil => rfl
+  | cons c r ih =>
+      simp only [List.map_cons, List.all_cons, Bool.and_eq_true] at h ⊢
+      refine ⟨?_, ih h.2⟩
+      cases hd : c.isDigit
+      · rfl
+      · have := toLower_digit c hd
+        rw [this, hd] at h
+        simp at h
+
+theorem hasDCD_noDigit : ∀ (l : List Char), l.all (fun c => !c.isDigit) = true → hasDigitColonDigit l = false
+  | [], _ => rfl
+  | [_], _ => rfl
+  | [_, _], _ => rfl
+  | a :: b :: c :: r, h => by
+      simp only [List.all_cons, Bool.and_eq_true, Bool.not_eq_true'] at h
+      simp only [hasDigitColonDigit, h.1, Bool.false_and, Bool.false_or]
+      exact hasDCD_noDigit (b :: c :: r) (by simp only [List.all_cons, h.2.1, h.2.2.1, h.2.2.2, Bool.not_false, Bool.and_self])
+
+theorem decimal_noDigit (s : String) (h : s.toList.all (fun c => !c.isDigit) = true) : decimalU32? s = none := by
+  unfold decimalU32?
+  simp only
+  split
+  · rename_i r hr
+    -- s = '+' :: r
+    have hr' : r.all (fun c => !c.isDigit) = true := by
+      rw [hr] at h; simp only [List.all_cons, Bool.and_eq_true] at h; exact h.2
+    cases r with
+    | nil => simp
+    | cons c r' =>
+        simp only [List.all_cons, Bool.and_eq_true, Bool.not_eq_true'] at hr'
+        simp [hr'.1]
+  · cases hs : s.toList with
+    | nil =>
+        have : s = "" := by
+          have := congrArg String.ofList hs
+          simpa using this
+        simp [this]
+    | cons c r' =>
+        rw [hs] at h
+        simp only [List.all_cons, Bool.and_eq_true, Bool.not_eq_true'] at h
+        simp [h.1]
+
+theorem wellKnown_noDigit (s : String) (v : Nat) (h : Spec.wellKnownValue s.toLower = some v) :
+    s.toList.all (fun c => !c.isDigit) = true := by
+  apply noDigit_of_lower
+  have e : s.toList.map Char.toLower = s.toLower.toList := by simp [String.toLower]
+  rw [e]
+  unfold Spec.wellKnownValue at h
+  repeat' split at h
+  all_goals first
+    | (rename_i hh; rw [hh]; decide)
+    | cases h
+
+/-- a well-known name is compiled to the pattern of the community it stands for, whatever its case -/
+theorem parseCommunity_wellKnown (env : RegexEnv) (s : String) (v : Nat) (h : Spec.wellKnownValue s.toLower = some v) :
+    parseCommunity env s = some s!"^{v / 65536}:{v % 65536}$" := by
+  have hn := wellKnown_noDigit s v h
+  simp only [parseCommunity, parseU32, decimal_noDigit s hn, hasDCD_noDigit _ hn, wellKnown_eq, h]
+  simp
+
+/-- the stored set holds, for every member given by a well-known name, the pattern of its value -/
+def wkStored (obj : SetObj) (e : Elem) : Bool :=
+  match e with
+  | .pat s =>
+      (match Spec.wellKnownValue s.toLower with
+       | some v => (match obj with | .strs pats => pats.contains s!"^{v / 65536}:{v % 65536}$" | _ => false)
+       | none => true)
   | _ => true
 
-theorem wellKnown_all (es : List Elem) (n : String) (cur : Dump)
-    (h : es.all (fun e => match e with | .pat s => (Spec.wellKnownValue s.toLower).isNone | _ => true) = true) :
+theorem parse_wkStored (env : RegexEnv) (es : List Elem) (new obj : SetObj)
+    (hp : parseElems env .comm es = some new) (hc : covers .comm new obj) : es.all (wkStored obj) = true := by
+  simp only [List.all_eq_true]
+  intro e he
+  replace hp := parseElems_some hp
+  simp only [parseElems0] at hp
+  cases hm : List.mapM (parseCommunity env) (es.filterMap Elem.pat?) with
+  | none => simp [hm] at hp
+  | some rs =>
+      simp [hm] at hp; subst hp
+      cases obj with
+      | strs l => ?_
+      | _ => exact hc.elim
+      simp only [covers] at hc
+      cases e with
+      | pat s =>
+          simp only [wkStored]
+          cases hw : Spec.wellKnownValue s.toLower with
+          | none => rfl
+          | some v =>
+              obtain ⟨r, hr, hf⟩ := mapM_mem _ _ _ hm s (mem_filterMap_pat he)
+              rw [parseCommunity_wellKnown env s v hw] at hf
+              cases hf
+              simp only [List.contains_iff_mem]
+              exact hc _ hr
+      | _ => rfl
+
+theorem addDefinedSet_wk (env : RegexEnv) {t : Table} (hsh : ∀ e ∈ t.sets, shapeOk true e.1.1 e.2 = true)
+    (name : String) (es : List Elem) (hok : (t.addDefinedSet env .comm name es).2 = .ok) :
+    ∃ obj, alLookup (SetKind.comm, name) (t.addDefinedSet env .comm name es).1.sets = some obj ∧ es.all (wkStored obj) = true := by
+  cases hp : parseElems env .comm es with
+  | none => simp [Table.addDefinedSet, hp] at hok
+  | some new =>
+      have hns := parseElems_shape (ar := true) env .comm es new (Or.inl rfl) hp
+      cases hl : alLookup (SetKind.comm, name) t.sets with
+      | none =>
+          by_cases he : new.isEmpty = true
+          · simp [Table.addDefinedSet, hp, hl, he] at hok
+          · cases hf : new.fresh with
+            | none => simp [Table.addDefinedSet, hp, hl, he, hf] at hok
+            | some f =>
+                refine ⟨f, by simp [Table.addDefinedSet, hp, hl, he, hf, alLookup_insert_self], ?_⟩
+                exact parse_wkStored env es new f hp (fresh_covers .comm new f hns hf)
+      | some ex =>
+          by_cases hu : setInUse t .comm name = true
+          · simp [Table.addDefinedSet, hp, hl, hu] at hok
+          · have hu' : setInUse t .comm name = false := by simpa using hu
+            cases hm : ex.merge new with
+            | none => simp [Table.addDefinedSet, hp, hl, hu', hm] at hok
+            | some m =>
+                refine ⟨m, by simp [Table.addDefinedSet, hp, hl, hu', hm, alLookup_insert_self], ?_⟩
+                exact parse_wkStored env es new m hp (merge_covers .comm ex new m (hsh _ (alLookup_mem hl)) hns hm)
+
+theorem wkStored_all (es : List Elem) (n : String) (cur : Dump) (obj : SetObj)
+    (hl : Spec.lookupSet cur .comm n = some obj) (h : es.all (wkStored obj) = true) :
     (es.all fun e =>
         match e with
         | .pat s =>
@@ -807,27 +942,58 @@ theorem wellKnown_all (es : List Elem) (n : String) (cur : Dump)
                   | _ => false)
              | none => true)
         | _ => true) = true := by
-  induction es with
-  | nil => rfl
-  | cons e r ih =>
-      simp only [List.all_cons, Bool.and_eq_true] at h ⊢
-      refine ⟨?_, ih h.2⟩
-      cases e with
-      | pat s =>
-          have := h.1
-          simp only at this
-          cases hw : Spec.wellKnownValue s.toLower with
-          | none => simp only [hw]
-          | some v => simp [hw] at this
-      | _ => rfl
+  simp only [List.all_eq_true] at h ⊢
+  intro e he
+  have := h e he
+  cases e with
+  | pat s =>
+      simp only [wkStored] at this
+      cases hw : Spec.wellKnownValue s.toLower with
+      | none => simp only [hw]
+      | some v =>
+          simp only [hw] at this
+          simp only [hw, hl]
+          cases obj with
+          | strs pats => exact this
+          | _ => simp at this
+  | _ => rfl
 
-theorem wellKnownOk_ok (op : Op) (res : Res) (cur : Dump) (h : op.noWellKnown = true) :
-    Spec.wellKnownOk op res cur = true := by
-  unfold Spec.wellKnownOk
-  split
-  · exact wellKnown_all _ _ _ (by simpa [Op.noWellKnown] using h)
-  · exact wellKnown_all _ _ _ (by simpa [Op.noWellKnown] using h)
-  · rfl
+/-- the well-known-community clause holds for every call of the model -/
+theorem wellKnownOk_ok (env : RegexEnv) {t : Table} (hi : Inv ar t) (op : Op) :
+    Spec.wellKnownOk op (t.step env op).2 (t.step env op).1.dump = true := by
+  have hsh : ∀ {t0 : Table}, Inv ar t0 → ∀ e ∈ t0.sets, shapeOk true e.1.1 e.2 = true := by
+    intro t0 h0 e he
+    have := h0.sets e he
+    revert this
+    cases e.1.1 <;> cases e.2 <;> simp [shapeOk]
+  cases op with
+  | setAdd k n es =>
+      cases k <;> try (cases hr : (t.step env (.setAdd _ n es)).2 <;> rfl)
+      simp only [Table.step, Spec.wellKnownOk]
+      cases hr : (t.addDefinedSet env .comm n es).2 <;> try rfl
+      obtain ⟨obj, hl, hall⟩ := addDefinedSet_wk env (hsh hi) n es hr
+      exact wkStored_all es n _ obj (by simp only [lookupSet_dump, hl]) hall
+  | setReplace k n es =>
+      cases k <;> try (cases hr : (t.step env (.setReplace _ n es)).2 <;> rfl)
+      simp only [Table.step, Spec.wellKnownOk]
+      cases hr : (t.replaceDefinedSet env .comm n es).2 <;> try rfl
+      by_cases hu : setInUse t .comm n = true
+      · simp [Table.replaceDefinedSet, hu] at hr
+      · have hu' : setInUse t .comm n = false := by simpa using hu
+        have e : t.replaceDefinedSet env .comm n es =
+            Table.addDefinedSet env { t with sets := alErase (SetKind.comm, n) t.sets } .comm n es := by
+          simp [Table.replaceDefinedSet, hu']
+        rw [e] at hr ⊢
+        obtain ⟨obj, hl, hall⟩ := addDefinedSet_wk env (hsh (hi.eraseSet .comm n hu')) n es hr
+        exact wkStored_all es n _ obj (by simp only [lookupSet_dump, hl]) hall
+  | setDel k n all es => cases hr : (t.step env (.setDel k n all es)).2 <;> rfl
+  | stmtAdd n cs d a => cases hr : (t.step env (.stmtAdd n cs d a)).2 <;> rfl
+  | stmtDel n all c d a => cases hr : (t.step env (.stmtDel n all c d a)).2 <;> rfl
+  | polAdd n ss => cases hr : (t.step env (.polAdd n ss)).2 <;> rfl
+  | polDel n pr all s => cases hr : (t.step env (.polDel n pr all s)).2 <;> rfl
+  | asgAdd d n df ps => cases hr : (t.step env (.asgAdd d n df ps)).2 <;> rfl
+  | asgSet d n df ps => cases hr : (t.step env (.asgSet d n df ps)).2 <;> rfl
+  | asgDel d all p => cases hr : (t.step env (.asgDel d all p)).2 <;> rfl
 
 theorem probesOf_step (env : RegexEnv) (t : Table) (op : Op) (d : Dir) (rs : List Route)
     (h : Spec.isAsgOp d op = false) : probesOf env d (t.step env op).1 rs = probesOf env d t rs := by
@@ -838,13 +1004,13 @@ theorem dump_slot (t : Table) (d : Dir) :
   cases d <;> rfl
 
 theorem checkSteps_ok (env : RegexEnv) (rs : List Route) : ∀ (ops : List Op) (t : Table) (i : Nat), Inv false t →
-    (∀ op ∈ ops, op.noAsRegex = true ∧ op.noWellKnown = true) →
+    (∀ op ∈ ops, op.noAsRegex = true) →
     Spec.checkSteps env rs i t.dump (probesOf env .imp t rs) (probesOf env .exp t rs) ops (runOps env rs t ops) = .ok
   | [], t, i, _, _ => by simp [runOps, Spec.checkSteps]
   | op :: ops, t, i, hi, hop => by
-      have hi' : Inv false (t.step env op).1 := hi.step env op (Or.inr (hop op (by simp)).1)
+      have hi' : Inv false (t.step env op).1 := hi.step env op (Or.inr (hop op (by simp)))
       have h1 := refsStable_ok env hi op hi'
-      have h2 := wellKnownOk_ok op (t.step env op).2 (t.step env op).1.dump (hop op (by simp)).2
+      have h2 := wellKnownOk_ok env hi op
       have h3 : (!Spec.isAsgOp .imp op && decide (probesOf env .imp (t.step env op).1 rs ≠ probesOf env .imp t rs)) = false := by
         cases ha : Spec.isAsgOp .imp op
         · simp [probesOf_step env t op .imp rs ha]
@@ -868,7 +1034,7 @@ theorem checkSteps_ok (env : RegexEnv) (rs : List Route) : ∀ (ops : List Op) (
 
 /-- master lemma: the C14 reference checker accepts every run of the model -/
 theorem check_run_ok (env : RegexEnv) (c : Case)
-    (h : ∀ op ∈ c.ops, op.noAsRegex = true ∧ op.noWellKnown = true) : Spec.check env c (run env c) = .ok :=
+    (h : ∀ op ∈ c.ops, op.noAsRegex = true) : Spec.check env c (run env c) = .ok :=
   checkSteps_ok env c.probes c.ops {} 0 (Inv.empty false) h
 
 
